@@ -37,7 +37,15 @@ class Fmt:
 
     def cpix(self):
         """CPIXEL rule (RFC 6143 7.7.5/7.7.6) -> ('full', n) | ('lo3',) | ('hi3',) in wire-byte terms"""
-        if self.bpp == 32 and self.tc and self.depth <= 24:
+        return self._cpix(True)
+
+    def cpix_defacto(self):
+        """the rule every known implementation uses: as cpix() but without the test depth <= 24
+        (known finding cpixel-depth)"""
+        return self._cpix(False)
+
+    def _cpix(self, strict):
+        if self.bpp == 32 and self.tc and (self.depth <= 24 or not strict):
             ls = all((m << s) < (1 << 24) for m, s in ((self.rmax, self.rs), (self.gmax, self.gs), (self.bmax, self.bs)))
             ms = all(s > 7 for s in (self.rs, self.gs, self.bs))
             if (ls and not self.be) or (ms and self.be):
@@ -52,7 +60,7 @@ class Fmt:
         def s32(v):
             v &= 0xFFFFFFFF
             return v - (1 << 32) if v & 0x80000000 else v
-        if self.bpp == 32:
+        if self.bpp == 32 and self.tc:
             ls = all(s32(m << s) < (1 << 24) for m, s in ((self.rmax, self.rs), (self.gmax, self.gs), (self.bmax, self.bs)))
             ms = all(s > 7 for s in (self.rs, self.gs, self.bs))
             if (ls and not self.be) or (ms and self.be):
@@ -178,9 +186,15 @@ def runlen(rd):
             return n
 
 
-def dec_zrle_tile(rd, tw, th, cp, stats=None, raw15bug=False):
+def dec_zrle_tile(rd, tw, th, cp, stats=None, raw15bug=False, zywrle=None):
     m = rd.u8()
     n = tw * th
+    if m == 0 and zywrle is not None:
+        # ZYWRLE: sub-encoding 0 is followed by a NESTED tile (any sub-encoding) that carries the wavelet
+        # coefficients of this tile; well-formedness only (no inverse transform here)
+        dec_zrle_tile(rd, tw, th, cp, None, False, None)
+        zywrle.append(True)
+        return None
     if m == 0 and raw15bug:
         # interpretation under the defect "raw tile of a 15-bit format written with w*h*(15/8) bytes"
         rd.take(n)
@@ -236,16 +250,21 @@ def dec_zrle_tile(rd, tw, th, cp, stats=None, raw15bug=False):
     raise Malformed("zrle: unused subencoding %d" % m)
 
 
-def dec_zrle_data(data, w, h, fmt, stats=None, cp=None, raw15bug=False):
+def dec_zrle_data(data, w, h, fmt, stats=None, cp=None, raw15bug=False, skipped=None):
     rd = Rd(data)
-    cp = cp or fmt.cpix()
+    cp = cp or fmt.cpix_defacto()
     bpp = fmt.bytespp
     cv = bytearray(w * h * bpp)
     for ty in range(0, h, 64):
         th = min(64, h - ty)
         for tx in range(0, w, 64):
             tw = min(64, w - tx)
-            blit(cv, w, bpp, tx, ty, tw, th, dec_zrle_tile(rd, tw, th, cp, stats, raw15bug))
+            zy = [] if skipped is not None else None
+            tile = dec_zrle_tile(rd, tw, th, cp, stats, raw15bug, zy)
+            if tile is None:
+                skipped.append((tx, ty, tw, th))
+            else:
+                blit(cv, w, bpp, tx, ty, tw, th, tile)
     if rd.left():
         raise Malformed("zrle: %d trailing bytes in the inflated data" % rd.left())
     return bytes(cv)
@@ -563,8 +582,15 @@ def parse_server_stream(buf, fmt, conn, unlzo, unjpeg, stats):
                             except Malformed:
                                 pass
                 else:
-                    r["px"] = None      # ZYWRLE: wavelet-coded raw tiles; handled by the caller
-                    r["lossy"] = True
+                    # ZYWRLE: tiles of sub-encoding 0 are wavelet-coded (not decoded here), all others are
+                    # plain ZRLE tiles and must be exact
+                    sk = []
+                    try:
+                        r["px"] = dec_zrle_data(data, w, h, fmt, stats["zrle"], skipped=sk)
+                        r["skip"] = sk
+                    except Malformed as e:
+                        r["px"] = None
+                        r["error"] = "zywrle tile data: %s" % e
             elif enc == 7 or enc == 0xFFFFFEFC:
                 info = {}
                 px, dwire, flag = dec_tight(rd, w, h, fmt, conn, enc != 7, unjpeg, info)
